@@ -17,11 +17,11 @@ func init() {
 	Descriptions["C06"] = "C06-own-request (the variables the per-request goroutine captures are per-iteration ones, never assigned again by the read loop after the go statement), C06-counter (Request.ID is fed, through newRequest/readRequest/ResponseWriter.requestID, by the read loop's induction register phi(0,v+1)+1), " +
 		"C06-sequential-read (readRequest is called only synchronously from the read loop), C06-async (every synchronous route to a handler from the loop is control-dependent on routeOp==unbind or extendedName==StartTLS; all other requests reach (*Mux).serve only through a go statement), " +
 		"C06-nojoin (the loop body contains no operation that can wait for a handler), C06-conn-async (serveRequests is reached from Run only through go). Decides numbering and absence of wait edges; scheduler progress is not decided."
-	Descriptions["C10"] = "C10-first (both dispatch sites are control-dependent on routeOp != unbind), C10-terminal (from the unbind edge every path leaves serveRequests without readRequest, serve, go or the loop back edge), " +
+	Descriptions["C10"] = "C10-first (both dispatch sites are control-dependent on routeOp != unbind, and every path from the read reaches the unbind test before a response write, a dispatch or the next read), C10-terminal (from the unbind edge every path leaves serveRequests without readRequest, serve, go or the loop back edge), " +
 		"C10-handler-once (the unbind route's handler is invoked exactly once iff one is registered, with this request and writer), C10-silent (gldap writes no response on that path), C10-classify (UnbindMessage <-> unbindRouteOperation <-> APP[2])."
 	Descriptions["C13"] = "C13-inline (StartTLS dispatch is a plain call in the read loop), C13-rawhandshake (tls.Server on a load of conn.netConn; initConn reached only when Handshake returned nil, with that very tls.Conn), " +
 		"C13-pair (initConn stores netConn, reader=bufio.NewReader(x), writer=bufio.NewWriter(x) for the same x under conn.mu; these fields are written nowhere else), " +
-		"C13-fresh-writer (c.writer is re-loaded in every loop iteration; c.reader at every ReadPacket), C13-no-bypass (no direct Read/Write on the socket, no tls.Conn.NetConn). Does not decide crypto/tls behaviour."
+		"C13-fresh-writer (c.writer is re-loaded in every loop iteration; c.reader at every ReadPacket), C13-no-bypass (no direct Read/Write on the socket, no tls.Conn.NetConn), C13-deadline (a deadline armed on the socket in mid-session is cleared for each direction it covered on every path to a success return). Does not decide crypto/tls behaviour."
 }
 
 // isHandlerInvoke: a dynamic call of a value of type HandlerFunc (or the
@@ -200,7 +200,9 @@ func checkC06(c *Ctx) {
 	}
 	// other writers of Request.ID
 	for _, fs := range fieldStores(shipped, G, "Request", "ID") {
-		if fs.Fn != newRequest && fs.Fn != m.serve {
+		// (the hand-built disconnection notice request is a fresh composite literal, in the read loop or a helper of it:
+		// building a new Request does not renumber one that was read)
+		if _, fresh := an.Strip(fs.Base).(*ssa.Alloc); fs.Fn != newRequest && fs.Fn != m.serve && !fresh {
 			R.Fail("C06-counter", fname(fs.Fn)+": store Request.ID", c.pos(fs.Store), "Request.ID is written outside newRequest")
 		}
 	}
@@ -441,6 +443,17 @@ func checkC10(c *Ctx) {
 		}
 		R.Check(base != nil && isThisRequest(an.StripX(base), m), "C10-first", "(*conn).serveRequests: unbind test on the request just read", c.pos(g.If), "r is this iteration's readRequest result", "the unbind test does not look at the request just read")
 	}
+	// ---- C10-first: nothing is done with the request before the unbind test is decided (a case tried before it -
+	// a limit, a filter - that answers or skips the request would let an Unbind be answered and the loop go on)
+	{
+		wrResp := callPred(func(cc *ssa.CallCommon) bool { return an.CalleeIs(cc, G, "(*ResponseWriter).Write") })
+		early := or(isInstr(m.readReq), callPred(isMuxServe), func(in ssa.Instruction) bool { _, ok := in.(*ssa.Go); return ok }, callPred(func(cc *ssa.CallCommon) bool { return an.CalleeIs(cc, G, "newResponseWriter") }), wrResp)
+		if w := an.SearchCorr(an.After(m.readReq), early, isInstr(g.If), nil); w != nil {
+			R.Fail("C10-first", "(*conn).serveRequests: unbind test decided before the request is answered, dispatched or skipped", c.pos(w[len(w)-1]), "a request that was read can be answered, dispatched or skipped (next read) before the routeOp == unbind test is made: an Unbind taking that path does not end the connection: "+c.trail(w))
+		} else {
+			R.OK("C10-first", "(*conn).serveRequests: unbind test decided before the request is answered, dispatched or skipped", c.pos(g.If), "every path from the read reaches the unbind test before any response write, dispatch or the next read")
+		}
+	}
 	// ---- C10-first: dispatch sites are on the non-unbind side
 	n := 0
 	for _, ci := range an.Calls(m.serve) {
@@ -597,6 +610,7 @@ func checkC13(c *Ctx) {
 	}
 	shipped := c.shippedFuncs(G)
 	isTLS := c.isStartTLSAtom()
+	c.checkDeadlineDiscipline("C13-deadline", m)
 	// ---- C13-inline
 	n := 0
 	for _, ci := range an.Calls(m.serve) {
@@ -821,4 +835,147 @@ func lockOwnerType(f *ssa.Function, key string) string {
 		}
 	}
 	return ""
+}
+
+// checkDeadlineDiscipline: a deadline gldap arms on a connection's socket in
+// the middle of a session (not at connection setup from the configured
+// timeouts, not on the shutdown path, not as the last act of the read loop) is
+// disarmed again, for every direction it covered, before the function reports
+// success: a leftover write (or read) deadline makes later answers (requests)
+// on that connection fail, unlike on a connection that never went through the
+// function (e.g. a plain one that never upgraded with StartTLS).
+func (c *Ctx) checkDeadlineDiscipline(rule string, m *serverModel) {
+	R := c.R
+	shipped := c.shippedFuncs(G)
+	dirs := map[string]string{"SetDeadline": "RW", "SetReadDeadline": "R", "SetWriteDeadline": "W"}
+	isZeroTime := func(v ssa.Value) bool {
+		v = an.Strip(v)
+		if k, ok := v.(*ssa.Const); ok && k.Value == nil {
+			return true
+		}
+		if ld, ok := v.(*ssa.UnOp); ok && ld.Op == token.MUL {
+			if al, ok := ld.X.(*ssa.Alloc); ok {
+				sts, esc := an.CellStores(al)
+				return !esc && len(sts) == 0 && len(*al.Referrers()) == 1
+			}
+		}
+		return false
+	}
+	type site struct {
+		ci   ssa.CallInstruction
+		dirs string
+		zero bool
+	}
+	byFn := map[*ssa.Function][]site{}
+	for _, u := range c.socketUses() {
+		if len(u.Kind) < 8 || u.Kind[:7] != "method:" {
+			continue
+		}
+		d, ok := dirs[u.Kind[7:]]
+		ci, isCall := u.Instr.(ssa.CallInstruction)
+		if !ok || !isCall {
+			continue
+		}
+		args := ci.Common().Args
+		if len(args) == 0 {
+			continue
+		}
+		byFn[u.Fn] = append(byFn[u.Fn], site{ci, d, isZeroTime(args[len(args)-1])})
+	}
+	n := 0
+	for _, f := range shipped {
+		for _, s := range byFn[f] {
+			key := fname(f) + ": " + s.ci.Common().Value.Name() + " deadline"
+			if cal := an.StaticCallee(s.ci.Common()); cal != nil {
+				key = fname(f) + ": " + cal.Name()
+			} else if s.ci.Common().IsInvoke() {
+				key = fname(f) + ": " + s.ci.Common().Method.Name()
+			}
+			n++
+			switch {
+			case s.zero:
+				R.Trivial(rule, key+" (clear)", c.pos(s.ci), "zero time: disarms the deadline")
+				continue
+			case f == m.stop || c.dominatedByShutdownRecv(s.ci):
+				R.Trivial(rule, key+" (shutdown)", c.pos(s.ci), "armed once the server is stopping: the connection is ending")
+				continue
+			case f == m.serve && an.Search(an.After(s.ci), isInstr(m.readReq), nil) == nil:
+				R.OK(rule, key+" (end of read loop)", c.pos(s.ci), "no further request is read on this connection after it")
+				continue
+			case c.isConnSetup(s.ci, m):
+				R.OK(rule, key+" (connection setup)", c.pos(s.ci), "armed before the first request is read, from the server's configured timeouts")
+				continue
+			}
+			// armed in mid-session: every success return is preceded by a clear covering each direction
+			bad := ""
+			for _, d := range s.dirs {
+				clears := func(in ssa.Instruction) bool {
+					for _, o := range byFn[f] {
+						if o.zero && ssa.Instruction(o.ci) == in && strings.ContainsRune(o.dirs, d) {
+							return true
+						}
+					}
+					return false
+				}
+				succ := func(in ssa.Instruction) bool {
+					ret, ok := in.(*ssa.Return)
+					if !ok {
+						return false
+					}
+					ei := errResultIndex(f)
+					return ei < 0 || !definitelyError(an.ReturnResults(ret)[ei], ret)
+				}
+				if w := an.SearchCorr(an.After(s.ci), succ, clears, nil); w != nil {
+					bad = map[rune]string{'R': "read", 'W': "write"}[d] + " deadline still armed at " + c.pos(w[len(w)-1])
+					break
+				}
+			}
+			R.Check(bad == "", rule, key+" (mid-session) is disarmed before success", c.pos(s.ci), "every path to a success return clears each direction the deadline covered", "a deadline armed in the middle of a session is left in force when "+fname(f)+" succeeds ("+bad+"): once it expires every later read/answer on the connection fails, unlike on a connection that did not take this path")
+		}
+	}
+	R.Count(rule+"/sites", n)
+}
+
+// isConnSetup: the call runs in the connection goroutine before the read
+// loop is entered (directly, or in a helper that runs only as a synchronous
+// part of that prefix).
+func (c *Ctx) isConnSetup(ci ssa.CallInstruction, m *serverModel) bool {
+	f := ci.Parent()
+	if f == m.connFn {
+		return an.Search(an.After(m.serveCall), isInstr(ci), nil) == nil
+	}
+	ok, _ := syncOnlyFrom(f, m.connFn, c.shippedFuncs(G), 0)
+	if !ok {
+		return false
+	}
+	// every call of the helper (chain) in connFn precedes the read loop
+	for _, cc := range an.Calls(m.connFn) {
+		if isGo(cc) {
+			continue
+		}
+		for _, u := range syncCalleesOf(cc) {
+			if u == f || reachesSync(u, f, map[*ssa.Function]bool{}) {
+				if an.Search(an.After(m.serveCall), isInstr(cc), nil) != nil || cc == ssa.CallInstruction(m.serveCall) {
+					return false
+				}
+			}
+		}
+	}
+	return true
+}
+
+func reachesSync(from, to *ssa.Function, seen map[*ssa.Function]bool) bool {
+	if from == to {
+		return true
+	}
+	if seen[from] {
+		return false
+	}
+	seen[from] = true
+	for _, u := range syncCallees(from) {
+		if reachesSync(u, to, seen) {
+			return true
+		}
+	}
+	return false
 }
